@@ -52,6 +52,25 @@ SRC_SPECS = [
          dialect='arr', params={}, returns='arr', consts={'KBOLTZ': 's'},
          attrs={'self.pressureProfile': ('pressureProfile', 'arr'),
                 'self.temperatureProfile': ('temperatureProfile', 'arr')}),
+    # ---- dialect 'seq': the dictionary of stored profiles (output.generate_profile_dict, then generate_profiles adds the
+    # mean molecular weight).  What the model object exposes (`model.temperatureProfile`, …: per-layer arrays; the two
+    # gas-mix tables: optional 2-D arrays; `model.chemistry.hasCondensates`: a bool) are inputs; `generate_profiles` passes
+    # `self` as `model`, so both functions read the same attributes
+    dict(module='taurex/util/output.py', func='generate_profile_dict', lean='generate_profile_dict', dialect='seq',
+         params=dict(model='skip'),
+         attrs={'model.temperatureProfile': ('temperatureProfile', 'list'),
+                'model.chemistry.activeGasMixProfile': ('activeGasMixProfile', ('optl', 'rows')),
+                'model.chemistry.inactiveGasMixProfile': ('inactiveGasMixProfile', ('optl', 'rows')),
+                'model.densityProfile': ('densityProfile', 'list'),
+                'model.scaleheight_profile': ('scaleheight_profile', 'list'),
+                'model.altitudeProfile': ('altitudeProfile', 'list'),
+                'model.gravity_profile': ('gravity_profile', 'list'),
+                'model.pressureProfile': ('pressureProfile', 'list'),
+                'model.chemistry.hasCondensates': ('hasCondensates', 'bool'),
+                'model.chemistry.condensateMixProfile': ('condensateMixProfile', 'rows')}),
+    dict(module='taurex/model/simplemodel.py', cls='SimpleForwardModel', func='generate_profiles',
+         lean='generate_profiles', dialect='seq', params={},
+         attrs={'self.chemistry.muProfile': ('muProfile', 'list')}),
 ]
 
 RULE = ('planets 0.01-20 M_J, 0.1-3 R_J; 1-200 layers (quota for 1, 2, 3); pressure ranges pmin<pmax over 1e-6..1e8 Pa; '
@@ -72,6 +91,11 @@ ASSUMPTIONS = [
     'source tie (Props/C11Src.lean): np.logspace(a, b, m) = 10**linspace(a, b, m), np.gradient = gradientAt on the n '
     'entries (the two externals above), self.nLevels = nLayers + 1; the results of calculate_scale_properties carry the '
     'factor conversion_factor("m", length_units) exactly as the code multiplies it in',
+    'source tie of the profile dictionary (dialect seq): output.generate_profile_dict / SimpleForwardModel.generate_profiles '
+    'are translated as insertion-ordered association lists (d[k] = v replaces an existing key in place, appends a new one); '
+    'what the model object exposes (per-layer arrays, the two optional gas-mix tables, hasCondensates) are inputs; '
+    'Structure.profileDict is compared key by key and value by value with generate_profiles() of every built model '
+    '(op c11.profiledict)',
 ]
 
 REL = 1e-9
@@ -247,6 +271,44 @@ def eval_array_pressure(ctx, c):
     if dec and c.get('shape') == 'logregular':
         # on a log-regular grid the given layer pressures are the geometric means of the derived levels
         check_geomean(ctx, levels, layers, small, 'ArrayPressureProfile')
+
+
+def _enc_opt_table(v):
+    return '0' if v is None else '1 ' + C.LL(np.asarray(v, float).tolist())
+
+
+def compare_profile_dict(ctx, m, prof, small):
+    """generate_profiles() of a built model against Structure.profileDict fed with the arrays the model object exposes:
+    the same keys in the same (insertion) order, every value of the same kind (None / 1-D / 2-D) and equal entry by entry"""
+    ch = m.chemistry
+    cond = ch.condensateMixProfile if ch.hasCondensates else None
+    f = lambda a: C.L(np.asarray(a, float).tolist())
+    d = ctx.model().call('c11.profiledict', f(m.temperatureProfile), f(m.pressureProfile), f(m.densityProfile),
+                         f(ch.muProfile), f(m.scaleheight_profile), f(m.altitudeProfile), f(m.gravity_profile),
+                         _enc_opt_table(ch.activeGasMixProfile), _enc_opt_table(ch.inactiveGasMixProfile),
+                         _enc_opt_table(cond))
+
+    def val():
+        tag = d.nat()
+        if tag == 0:
+            return None
+        if tag == 1:
+            return d.list()
+        return d.list(d.list)
+    model = d.list(lambda: (d.str(), val()))
+    ctx.check_eq('generate_profiles() keys (insertion order) vs Structure.profileDict', list(prof.keys()),
+                 [k for k, _ in model], small)
+    for key, mv in model:
+        if key not in prof:
+            continue
+        iv = prof[key]
+        ishape = None if iv is None else list(np.asarray(iv).shape)
+        mshape = None if mv is None else list(np.asarray(mv, float).shape) if len(mv) else \
+            ([0] if ishape is None or len(ishape) == 1 else [0] + ishape[1:])
+        ctx.check_eq('generate_profiles()[%r] kind/shape vs Structure.profileDict' % key, ishape, mshape, small)
+        if iv is not None and mv is not None and ishape == mshape:
+            ctx.check_close('generate_profiles()[%r] vs Structure.profileDict' % key,
+                            np.asarray(iv, float).ravel(), np.asarray(mv, float).ravel(), small, 0.0, 0.0)
 
 
 def same_arrays(a, b):
@@ -517,6 +579,7 @@ def judge_model(ctx, m, c, small, stream):
             ctx.violation('stored-profile:' + key, 'generate_profiles()[%r] is not model.%s' % (key, attr), small)
     if 'mu_profile' not in prof or not same_arrays(prof['mu_profile'], mu):
         ctx.violation('stored-profile:mu_profile', 'generate_profiles()["mu_profile"] is not chemistry.muProfile', small)
+    compare_profile_dict(ctx, m, prof, small)
     H = np.asarray(m.scaleheight_profile, float)
     g = np.asarray(m.gravity_profile, float)
     dz = np.asarray(m.deltaz, float)
